@@ -74,6 +74,9 @@ class HyperVFile:
 
                 if entry.type == ObjectEntryType.ObjectTable:
                     # Haven't seen a file yet with additional object tables, but I assume this is how it'd work
+                    if any(table.offset == entry.offset for table in self.object_tables):
+                        # Already loaded, an object table can list itself (or an earlier table)
+                        continue
                     new_object_table = HyperVStorageObjectTable(self, entry.offset)
                     self.object_tables.append(new_object_table)
 
